@@ -117,8 +117,20 @@ def gen_case(rng, tier, idx):
             # its timeframe, must not inherit it whatever the registration order; needs gaps to be visible
             rng.choice(cfgs)["kw"]["timeframe_fill"] = True
             rows = streams.make_rows(rng, n, "walk", 60, "gaps", 300, max_gap_buckets=6)
+    extra = {}
+    if tf is None and not any(c["kw"].get("timeframe") for c in cfgs) and rng.random() < 0.2:
+        # nested member timeframes (one divides the other), a long history with gaps already there when the managers are created,
+        # Hexital-level gap filling on or off: what one member's manager holds must not leak into the other's, in any registration order
+        a = rng.choice([1, 2, 5])
+        tfs = [f"T{a}", f"T{a * rng.choice([2, 3])}"]
+        rng.shuffle(tfs)
+        for c, t_ in zip(cfgs, tfs + [tfs[0]]):
+            c["kw"]["timeframe"] = t_
+        rows = streams.make_rows(rng, n, rng.choice(["walk", "spiky"]), 60, "gaps", a * 60, max_gap_buckets=8)
+        extra = {"fill": rng.random() < 0.7, "pre": rng.randint(n // 3, n // 2)}
+        cut1 = rng.randint(extra["pre"] + 6, n - 4)
     ops = [rng.choice(["purge", "recalculate", "remove", "purge+calc"]) for _ in range(rng.randint(1, 3))]
-    return {"cfgs": cfgs, "pair_kind": kind, "rows": rows, "tf": tf, "cut1": cut1, "ops": ops, "chunk": rng.choice([1, 1, 3, 7]),
+    return {**extra, "cfgs": cfgs, "pair_kind": kind, "rows": rows, "tf": tf, "cut1": cut1, "ops": ops, "chunk": rng.choice([1, 1, 3, 7]),
             "shared_list": tf is None and rng.random() < 0.25 and not any(c["kw"].get("timeframe") for c in cfgs)}
 
 
@@ -253,7 +265,10 @@ def run_case(case):
         return run_shared_list(case)
     cfgs, rows, tf, cut1 = case["cfgs"], case["rows"], case["tf"], case["cut1"]
     kw = {"timeframe": tf} if tf else {}
-    stats = {"pair_kinds": [case["pair_kind"]], "tfkinds": {"collapsing" if tf else "base": 1}}
+    if case.get("fill"):
+        kw["timeframe_fill"] = True
+    pre = case.get("pre", 5)
+    stats = {"pair_kinds": [case["pair_kind"]], "tfkinds": {"collapsing" if tf else ("nested-members" if "pre" in case else "base"): 1}}
     viol = []
     names = [configs.build(c).name for c in cfgs]
     if len(set(names)) != len(names):
@@ -268,10 +283,10 @@ def run_case(case):
             pair = f"{cls_of(tcfg)}<-{'+'.join(sorted(cls_of(c) for c, _ in others))}"
 
             def mk(order):
-                return Hexital("h", rows_to_candles(rows[:5]), [configs.build(c) for c in order], **kw)
+                return Hexital("h", rows_to_candles(rows[:pre]), [configs.build(c) for c in order], **kw)
 
             alone = mk([tcfg])
-            feed(alone, rows, 5, cut1, case["chunk"])
+            feed(alone, rows, pre, cut1, case["chunk"])
             base1 = col(alone, tname)
             stats["columns_compared"] = stats.get("columns_compared", 0)
             for label, order in (("target-first-others-added-later", None), ("target-first", [tcfg] + [c for c, _ in others]),
@@ -279,8 +294,8 @@ def run_case(case):
                 if order is None:
                     # the others are registered later, one add_indicator call each (object or dict form), after some appends
                     hx = mk([tcfg])
-                    mid = 5 + (cut1 - 5) // 2
-                    feed(hx, rows, 5, mid, case["chunk"])
+                    mid = pre + (cut1 - pre) // 2
+                    feed(hx, rows, pre, mid, case["chunk"])
                     for k, (c, _) in enumerate(others):
                         hx.add_indicator(configs.build(c) if k % 2 == 0 else configs.as_dict_form(c))
                     hx.calculate()
@@ -288,7 +303,7 @@ def run_case(case):
                     stats["added_later_registrations"] = stats.get("added_later_registrations", 0) + 1
                 else:
                     hx = mk(order)
-                    feed(hx, rows, 5, cut1, case["chunk"])
+                    feed(hx, rows, pre, cut1, case["chunk"])
                 got = col(hx, tname)
                 stats["columns_compared"] += 1
                 if not same(got, base1):
